@@ -163,6 +163,22 @@ pub fn run(p: &Params, rep: &mut Report) {
             _ => rng.below(a.len() as u64 + 3) as i32,
         };
         check_tuple(&mut ck, &a, &b, &c, i, n);
+        if a.len() <= 12 && ck.rep.xchecks.len() < 60 {
+            use crate::oracle::smtlib::{int, lit};
+            let (sa, sb, sc) = (s(&a), s(&b), s(&c));
+            let (la, lb, lc) = (lit(&a), lit(&b), lit(&c));
+            let k = ck.rep.xchecks.len() % 8;
+            ck.rep.xcheck(|| match k {
+                0 => format!("(= (str.indexof {} {} {}) {})", la, lb, int(i as i64), int(str_indexof(&sa, &sb, i) as i64)),
+                1 => format!("(= (str.replace {} {} {}) {})", la, lb, lc, lit(&v(&str_replace(&sa, &sb, &sc)))),
+                2 => format!("(= (str.replace_all {} {} {}) {})", la, lb, lc, lit(&v(&str_replace_all(&sa, &sb, &sc)))),
+                3 => format!("(= (str.substr {} {} {}) {})", la, int(i as i64), int(n as i64), lit(&v(&str_substr(&sa, i, n)))),
+                4 => format!("(= (str.at {} {}) {})", la, int(i as i64), lit(&v(&str_at(&sa, i)))),
+                5 => format!("(= (str.contains {} {}) {})", la, lb, str_contains(&sa, &sb)),
+                6 => format!("(= (str.prefixof {} {}) {})", lb, la, str_prefixof(&sb, &sa)),
+                _ => format!("(= (str.suffixof {} {}) {})", lb, la, str_suffixof(&sb, &sa)),
+            });
+        }
         let key = format!("{}|{}|{}|{}|{}", fmt_w(&a), fmt_w(&b), fmt_w(&c), i, n);
         ck.rep.eval(Some(&key));
         ck.rep.sample(|| format!("a={} b={} c={} i={} n={}", fmt_w(&a), fmt_w(&b), fmt_w(&c), i, n));
